@@ -37,6 +37,7 @@ func checkC08(p *Prog, r *Report) {
 		return false
 	}
 	ruleReflectTypestate(p, a, r, "R-C08-SAFE", inScope)
+	ruleReflectHazards(p, a, r, "R-C08-HAZARD", func(f *ssa.Function) bool { return inScope(f) || topLevel(f).Name() == "fieldByName" })
 	ruleC08Sibling(p, a, r, res)
 	ruleC08Call(p, a, r, res)
 	ruleC08Bounds(p, a, r, res)
@@ -87,7 +88,24 @@ func ruleC08Sibling(p *Prog, a *Anchors, r *Report, res *ssa.Function) {
 			r.Bad(key, p.InstrPos(c), "this map lookup is not behind the key-assignability test its sibling branch has: a wrong-typed key panics instead of yielding the empty value")
 		}
 	}
-	for _, c := range reflectCallsIn(p, res, "FieldByName") {
+	// struct field lookups: reflect's own, or a package helper that performs one (fieldByName)
+	fieldLookups := reflectCallsIn(p, res, "FieldByName")
+	for _, b := range res.Blocks {
+		for _, in := range b.Instrs {
+			c, ok := in.(*ssa.Call)
+			if !ok || c.Common().StaticCallee() == nil || !p.InPkg(c.Common().StaticCallee()) || c.Common().StaticCallee().Blocks == nil {
+				continue
+			}
+			h := c.Common().StaticCallee()
+			if !isReflectValue(c.Type()) {
+				continue
+			}
+			if len(reflectCallsIn(p, h, "FieldByIndexErr"))+len(reflectCallsIn(p, h, "FieldByName"))+len(reflectCallsIn(p, h, "FieldByIndex")) > 0 {
+				fieldLookups = append(fieldLookups, c)
+			}
+		}
+	}
+	for _, c := range fieldLookups {
 		key := "resolve:FieldByName"
 		// every path from the call to the loop's join passes CanInterface true or IsValid false or returns
 		ok := false
@@ -201,12 +219,62 @@ func ruleC08Call(p *Prog, a *Anchors, r *Report, res *ssa.Function) {
 			if (isTO(bo.X) || isTO(bo.Y)) && (errorReturnsOnly(res, b.Succs[0]) || errorReturnsOnly(res, b.Succs[1]) || reachesErrorSoon(res, b)) {
 				typeCmp = true
 			}
+			// the comparison feeds a compound condition (typeOK := a == b || …): then every path from it to the Call
+			// passes a branch that has an error exit
+			if (isTO(bo.X) || isTO(bo.Y)) && !typeCmp {
+				if MustPassFrom(b, len(b.Instrs)-1, call, func(x ssa.Instruction) bool {
+					_, ok := x.(*ssa.If)
+					if !ok || x.Block() == b {
+						return false
+					}
+					return errorReturnsOnly(res, x.Block().Succs[0]) || errorReturnsOnly(res, x.Block().Succs[1])
+				}) {
+					_ = bo
+					typeCmp = true
+				}
+			}
 			if x, isKind := (&kengine{p: p}).reflectCall(bo.X, "Kind"); isKind {
 				if k, isK := kindConst(bo.Y); isK && k == kInvalid && x != nil && b.Dominates(call.Block()) == false && ReachableBlocks(b)[call.Block()] {
 					if errorReturnsOnly(res, b.Succs[0]) || errorReturnsOnly(res, b.Succs[1]) {
 						validity = true
 					}
 				}
+			}
+		}
+	}
+	// an interface-typed parameter must not switch the type test off: where the test is relaxed by
+	// `paramType.Kind() == Interface`, the argument's type has to be shown assignable to (or implementing) the parameter type
+	for _, b := range res.Blocks {
+		for _, in := range b.Instrs {
+			bo, ok := in.(*ssa.BinOp)
+			if !ok || (bo.Op != token.EQL && bo.Op != token.NEQ) {
+				continue
+			}
+			kc, ok := bo.X.(*ssa.Call)
+			if !ok || !kc.Common().IsInvoke() || kc.Common().Method.Name() != "Kind" {
+				continue
+			}
+			if k, isK := kindConst(bo.Y); !isK || k != kInterface {
+				continue
+			}
+			paramT := kc.Common().Value
+			found := false
+			for _, b2 := range res.Blocks {
+				for _, in2 := range b2.Instrs {
+					c2, ok := in2.(*ssa.Call)
+					if !ok || !c2.Common().IsInvoke() {
+						continue
+					}
+					m := c2.Common().Method.Name()
+					if (m == "AssignableTo" || m == "Implements") && len(c2.Common().Args) == 1 && p.VN(c2.Common().Args[0]) == p.VN(paramT) {
+						found = true
+					}
+				}
+			}
+			if found {
+				r.OK("resolve:Call:iface-param", p.InstrPos(in), "an interface-typed parameter is accepted only for an argument whose type is assignable to it")
+			} else {
+				r.Bad("resolve:Call:iface-param", p.InstrPos(in), "the argument type test is switched off for every parameter of interface kind and nothing shows the argument assignable to it: show(1) for func(fmt.Stringer) reaches reflect's Call, which panics (\"Call using int as type fmt.Stringer\")")
 			}
 		}
 	}
